@@ -910,6 +910,11 @@ class PX:
                 import re as _re
 
                 m_ = _re.fullmatch(r"\((?:\S*\.)?time#\d+ \+ (.+)\)", args[0].tag) or _re.fullmatch(r"\((.+) \+ (?:\S*\.)?time#\d+\)", args[0].tag)
+                # only a deadline computed from a clock reading taken in this very event-loop turn is a relative delay from now
+                # (a reading taken before an earlier await - when the caller joined a queue, say - makes the limit start back then)
+                reads = [ep for tg, ep in getattr(self, "clock_reads", {}).items() if tg in args[0].tag]
+                if m_ and (not reads or max(reads) != self.epoch):
+                    m_ = None
                 if m_:
                     try:
                         rel = float(m_.group(1)) if "." in m_.group(1) else int(m_.group(1))
@@ -2379,6 +2384,9 @@ class PX:
         self._callee = callee
         n = self._count("call:" + text)
         res = Sym(f"{text}#{n}")
+        if text.endswith(".time") and not args:
+            self.clock_reads = getattr(self, "clock_reads", {})
+            self.clock_reads[res.tag] = self.epoch  # when (between which awaits) the loop's clock was read
         if awaited:
             outs = [OK(res)]
             if self.timeouts and self.auto_timeout:
